@@ -174,6 +174,15 @@ def standin(rep: Report):
     for rest in ["hello  world", "a   b\tc", "-x 'q  s' | grep   y", "if for  while", "x=1  y = 2"]:
         for op, cl in (("$(", ")"), ("![", "]")):
             cases.append({"src": f"{op}echo! {rest}{cl}\nz = 1\n", "expect": [rest.strip()], "kind": "proc", "after": "z = 1\n"})
+    # shapes reported by a round-5 seeding agent about the unchanged tree (each one a recorded finding, see known_findings.json): a backslash
+    # continuation inside an argument, a soft keyword as the macro's name at the start of a statement, a line break / an f-string in a subprocess macro
+    for a in ["a \\\n b", "1 +\\\n  2"]:
+        cases.append({"src": f"f!({a}, c)\n", "expect": split_args(f"{a}, c"), "kind": "call"})
+    for kw in ["match", "case", "type"]:
+        cases.append({"src": f"{kw}!(a b, c)\nz = 1\n", "expect": ["a b", " c"], "kind": "call", "after": "z = 1\n"})
+        cases.append({"src": f"x = {kw}!(a b, c)\nz = 1\n", "expect": ["a b", " c"], "kind": "call", "after": "z = 1\n"})
+    for rest in ["a\n b", "f'x'  y", "f'{x}' z"]:
+        cases.append({"src": f"$(echo! {rest})\nz = 1\n", "expect": [rest.strip()], "kind": "proc", "after": "z = 1\n"})
     rc, out, err = run_py("harness/desugar.py", [], timeout=3600, stdin=json.dumps({"op": "c07", "cases": cases}))
     si = StandIn("macro-verbatim", f"{len(cases)} macro uses: {len(args)} argument texts (also in pairs, nested in brackets, multi-line), {len(BODIES)} block bodies at two depths, "
                  "one-line with-macros, subprocess macros; received text == source text and the following statement parses normally")
